@@ -49,6 +49,16 @@ def _src(sig):
         elif d == "self":
             params.append(f"{n}={n}")   # a default naming its own parameter: the parameter shadows, stays undefined
     body = ["'m'"] + NAMES[: sig["np"]]
+    if sig.get("ind"):
+        # the special names occur only in the call expression of a call block and in a nested macro's default:
+        # both are evaluated in this macro's scope, so the macro accepts the extra arguments all the same
+        spec3 = ["varargs" if sig["v"] else "'-'", "kwargs" if sig["k"] else "'-'", "(caller is defined)" if sig["c"] else "'-'"]
+        pre = "{% macro pass3(v, k, c) %}{{ caller(v, k, c) }}{% endmacro %}"
+        if sig.get("ind") == 2:
+            inner = "{%% macro inner(vv=%s, kk=%s, cc=%s) %%}{{ rec(%s, vv, kk, cc) }}{%% endmacro %%}{{ inner() }}" % (spec3[0], spec3[1], spec3[2], ", ".join(body))
+            return "{%% macro m(%s) %%}%s{%% endmacro %%}" % (", ".join(params), inner)
+        inner = "{%% call(vv, kk, cc) pass3(%s) %%}{{ rec(%s, vv, kk, cc) }}{%% endcall %%}" % (", ".join(spec3), ", ".join(body))
+        return pre + "{%% macro m(%s) %%}%s{%% endmacro %%}" % (", ".join(params), inner)
     body.append("varargs" if sig["v"] else "'-'")
     body.append("kwargs" if sig["k"] else "'-'")
     body.append("(caller is defined)" if sig["c"] else "'-'")
@@ -173,6 +183,7 @@ def bind_ok(npos: int, kwp: List[bool], vals: List[int]) -> bool:
 
 
 SYN_ENV = Environment()
+UNKNOWN = ["zz", "obj", "self", "context", "args", "kwargs", "environment", "name", "__obj", "eval_ctx"]
 
 
 def syntax_ok(sigi: int, npos: int, kwsel: int) -> bool:
@@ -195,7 +206,8 @@ def _syntax_native(si, n, ks):
     """Explicit call syntax m(p0, p1, b=k1, zz=k2), in templates and call blocks, native."""
     sig = SIGS[si]
     # "class" is a Python reserved word: the compiler passes such keywords through **{...}
-    names = NAMES[: sig["np"]] + ["zz"]
+    # the keyword that names no parameter rotates over names the call path uses internally
+    names = NAMES[: sig["np"]] + [UNKNOWN[P.get("unk", 0) % len(UNKNOWN)]]
     if len(names) < 4:
         names = names + ["class"]
     kwn = [nm for i, nm in enumerate(names[:4]) if (ks >> i) & 1]
@@ -242,6 +254,11 @@ def _sigs():
     for np_, d in shapes:
         for bits in range(8):
             out.append({"np": np_, "defaults": d, "v": bool(bits & 1), "k": bool(bits & 2), "c": bool(bits & 4)})
+    # the same special names used only indirectly (call-block expression / nested macro default)
+    for np_, d in [(0, []), (1, ["none"]), (2, ["none", "const"])]:
+        for bits in range(1, 8):
+            for ind in (1, 2):
+                out.append({"np": np_, "defaults": d, "v": bool(bits & 1), "k": bool(bits & 2), "c": bool(bits & 4), "ind": ind})
     return out
 
 
@@ -258,7 +275,7 @@ def conditions(tier, seed):
         if not thorough and (idx + seed) % 2:
             continue  # quick: a seed-rotated half of the signatures
         name = "m(%s)%s%s%s" % (",".join(f"{n}:{d}" for n, d in zip(NAMES, sig["defaults"])),
-                                "+varargs" if sig["v"] else "", "+kwargs" if sig["k"] else "", "+caller" if sig["c"] else "")
+                                "+varargs" if sig["v"] else "", "+kwargs" if sig["k"] else "", ("+caller" if sig["c"] else "") + ({1: " [via call expr]", 2: " [via nested default]"}.get(sig.get("ind"), "")))
         vias = ["python", "star", "callblock"]
         if not thorough:
             # quick: every signature from Python; template routes on a seed-rotated third of them
@@ -275,7 +292,7 @@ def conditions(tier, seed):
     for lo in range(0, len(SIGS), chunk):
       if thorough or (lo // chunk + seed) % 2 == 0:
         out.append(Cond(f"syntax[explicit call shapes, signatures {lo}..{lo+chunk-1}]", "syntax_ok", mode="B",
-                    param={"lo": lo, "n": min(chunk, len(SIGS) - lo)}, timeout=(300 if thorough else 60),
+                    param={"lo": lo, "n": min(chunk, len(SIGS) - lo), "unk": (lo // chunk) // (1 if thorough else 2) + seed}, timeout=(300 if thorough else 60),
                     witnesses=[[1, 1, 3], [3, 4, 16]],
                     bounds=f"{chunk} of {len(SIGS)} signatures x 0..4 positional literals x subsets of keyword literals, as {{{{ m(...) }}}} and {{% call m(...) %}}; compiled and run natively per path"))
     return out
